@@ -17,7 +17,7 @@ NOT_XML = re.compile(u'[\x00-\x08\x0b\x0c\x0e-\x1f\ud800-\udfff\ufffe\uffff]')
 
 def export_cases(ctx):
     out = os.path.join(ctx.work, 'fault_cases.json')
-    tlc.run('ExportFault', 'ExportFault.cfg', ctx.work, env={'OUT_FILE': out})
+    tlc.run('ExportFault', 'ExportFault.cfg', ctx.work, env={'OUT_FILE': out, 'FAMILY': ctx.tier}, timeout=1800)
     cs = json.load(open(out))
     cs.sort(key=lambda c: json.dumps(c, sort_keys=True))
     return cs
